@@ -50,7 +50,7 @@ PROPS["C02"] = {
         {"bin": "hv", "args": ["c02"]},
         {"bin": "hvt", "args": ["c02"]},
     ],
-    "min": {"quick": {"requests": 2_500, "parses": 300_000, "requests_over_20_fields": 100, "requests_with_xff": 300, "timed_parses_faithful": 10},
+    "min": {"quick": {"requests": 2_500, "parses": 300_000, "requests_over_20_fields": 100, "requests_with_xff": 300, "timed_parses_faithful": 10, "aborted_parses_before_a_well_formed_one": 100_000},
             "thorough": {"requests": 50_000}},
     "assumptions": [],
     "level_text": "Generated well-formed requests are parsed by the real parser under every read plan (whole, bytewise, every split point, random multi-split) and compared field by field with the generating model; the serialisation is judged by a strict reference reader and re-parsed.",
@@ -130,7 +130,7 @@ PROPS["C16"] = {
     "engines": [
         {"bin": "hv", "args": ["c16"], "needs": ["server"]},
     ],
-    "min": {"quick": {"requests_served_after_a_failed_read": 4, "exhaustive_sequences": 3_900_000, "concurrent_histories": 200, "concurrent_hits_checked": 1000, "handler_requests": 100, "real_sleeps": 2, "multi_host_answers_own_file": 150},
+    "min": {"quick": {"requests_served_after_a_failed_read": 4, "exhaustive_sequences": 3_900_000, "concurrent_histories": 200, "concurrent_hits_checked": 1000, "handler_requests": 100, "real_sleeps": 2, "multi_host_answers_own_file": 150, "second_directory_route_answers_own_file": 150},
             "thorough": {"requests_served_after_a_failed_read": 4, "exhaustive_sequences": 90_000_000}},
     "assumptions": [],
     "level_text": "Every operation sequence of length 4 (5 thorough) over 3 keys x 2 hosts x 3 sizes is executed on the real Cache for 12 limit configurations with a shadow-map monitor probing all keys after every operation; long random sequences, concurrent histories through the RwLock (per-key interval check) and the two real handlers over changing files complete the picture.",
@@ -171,7 +171,7 @@ PROPS["C01"] = {
         {"bin": "hv", "args": ["c01"]},
         {"bin": "hvt", "args": ["c01"]},
     ],
-    "min": {"quick": {"idle_from_start_answered_408_and_closed": 4, "responses_judged": 1000, "keep_alive_continuations": 100, "closes_observed": 50, "malformed_answered_400": 20, "idle_answered_408": 4, "handler_logs_matched": 300, "panic_connections_closed": 10, "half_close_endings_silent": 50, "zero_request_connections_silent": 10, "big_responses_intact": 8},
+    "min": {"quick": {"idle_from_start_answered_408_and_closed": 4, "responses_judged": 1000, "keep_alive_continuations": 100, "closes_observed": 50, "malformed_answered_400": 20, "idle_answered_408": 4, "handler_logs_matched": 300, "panic_connections_closed": 10, "half_close_endings_silent": 50, "zero_request_connections_silent": 10, "big_responses_intact": 8, "queued_connections_answered": 6},
             "thorough": {"idle_from_start_answered_408_and_closed": 4, "responses_judged": 20_000}},
     "assumptions": [],
     "level_text": "Generated request scripts are played over real TCP connections against real Apps (threaded and tokio) under several segmentations, lock-step and pipelined; every byte received is parsed by a strict HTTP reference reader and compared with a reference model of the expected response sequence and connection disposition, and the handler-side log is compared with what was sent.",
@@ -185,7 +185,7 @@ PROPS["C20"] = {
         {"bin": "hv", "args": ["c20"]},
         {"bin": "hvt", "args": ["c20"]},
     ],
-    "min": {"quick": {"rejecting_condition_returns_and_rebinds_ok": 5, "fd_exhaustion_survived_and_serving": 1, "scenarios": 180, "returns_observed": 180, "rebinds_ok": 180, "in_flight_responses_complete": 150},
+    "min": {"quick": {"rejecting_condition_returns_and_rebinds_ok": 5, "fd_exhaustion_survived_and_serving": 10, "fd_exhaustion_signal_in_shortage_returns": 1, "fd_shortages_driven": 14, "scenarios": 180, "returns_observed": 180, "rebinds_ok": 180, "in_flight_responses_complete": 150},
             "thorough": {"rejecting_condition_returns_and_rebinds_ok": 5, "fd_exhaustion_survived_and_serving": 1, "scenarios": 1400}},
     "assumptions": [],
     "level_text": "Real Apps are started on loopback, put into generated traffic states (idle, half-sent, running handlers, large responses, WebSockets, occupied pools), signalled at varied instants with delays injected at the accept-loop failpoints, and observed: time until run returns, re-bind of the port, completeness of every in-flight response whose handler had started before the signal; plus connection conditions that are slow or reject everything, and a transient descriptor exhaustion (run must not return before the signal).",
@@ -212,7 +212,7 @@ PROPS["C09"] = {
     "engines": [
         {"bin": "hv", "args": ["c09"]},
     ],
-    "min": {"quick": {"concurrent_rotations_with_overlapping_exchanges": 20, "exchanges": 3000, "cut_responses": 2500, "complete_responses": 100, "stall_and_refusal_cases": 40, "malformed_upstream_cases": 200, "upstream_records_checked": 2000, "proxy_handler_calls": 100, "load_balancer_histories": 200, "late_bytes_cases": 15, "concurrent_rotation_rounds": 35},
+    "min": {"quick": {"concurrent_rotations_with_overlapping_exchanges": 20, "exchanges": 3000, "cut_responses": 2500, "complete_responses": 100, "stall_and_refusal_cases": 40, "malformed_upstream_cases": 200, "upstream_records_checked": 2000, "proxy_handler_calls": 100, "load_balancer_histories": 200, "late_bytes_cases": 15, "concurrent_rotation_rounds": 35, "slow_valid_cases_relayed": 10, "rotation_with_refusals_exact": 35, "refusals_interleaved": 60},
             "thorough": {"concurrent_rotations_with_overlapping_exchanges": 20, "exchanges": 40_000}},
     "assumptions": [],
     "level_text": "proxy_request and proxy_handler are executed against a scripted upstream for every enumerated fault: each valid response cut at every byte offset, non-HTTP answers, refusal, silence, close, trickle; the returned response and its latency are judged against the reference reader's verdict on what the upstream actually sent, and the upstream's record of the relayed request is compared with the client's request; overlapping proxy_handler calls are observed at the upstreams (strict rotation, exchanges in progress at once).",
@@ -238,7 +238,7 @@ PROPS["C12"] = {
     "engines": [
         {"bin": "hv", "args": ["c12"]},
     ],
-    "min": {"quick": {"slow_fragment_clients_fully_dispatched": 6, "scenarios": 150, "handler_events_observed": 3000, "messages_dispatched_exactly_once": 2000, "broadcasts": 150, "disconnects_graceful": 400, "single_handler_thread_scenarios": 70, "unicasts_delivered": 300, "bulk_unicasts_intact": 6, "busy_clients_kept_and_fully_dispatched": 6},
+    "min": {"quick": {"slow_fragment_clients_fully_dispatched": 6, "scenarios": 150, "handler_events_observed": 3000, "messages_dispatched_exactly_once": 2000, "broadcasts": 150, "disconnects_graceful": 400, "single_handler_thread_scenarios": 70, "unicasts_delivered": 300, "bulk_unicasts_intact": 6, "busy_clients_kept_and_fully_dispatched": 6, "size_sweep_unicasts_intact": 14, "size_sweep_broadcasts_received_by_idle_client": 14},
             "thorough": {"slow_fragment_clients_fully_dispatched": 6, "scenarios": 1450}},
     "assumptions": [],
     "level_text": "Scenarios of several reference WebSocket clients with random scripts run against the real AsyncWebsocketApp (linked to a real App) under varied pool sizes, poll intervals, heartbeat settings and failpoint delays; the handler-side event log and the frames each client received are checked for exactly-once connect/message/disconnect, addressing of unicasts, coverage of broadcasts, per-client order (single handler thread) and termination of run.",
@@ -251,7 +251,7 @@ PROPS["C19"] = {
     "engines": [
         {"bin": "hv", "args": ["c19"], "needs": ["server"]},
     ],
-    "min": {"quick": {"configurations": 240, "requests": 4500, "expected_dropped": 200, "expected_403": 400, "expected_normal": 1500, "served_normally": 1500},
+    "min": {"quick": {"configurations": 240, "requests": 4500, "expected_dropped": 200, "expected_403": 400, "expected_normal": 1500, "served_normally": 1500, "forwarded_lists_with_a_non_address_element": 300},
             "thorough": {"configurations": 3800}},
     "assumptions": [],
     "level_text": "The real server binary, rebuilt from the working tree, is started from generated configuration files; clients bound to chosen loopback source addresses send requests with forged and genuine X-Forwarded-For headers to every route type, and the bytes/EOF each client observes are judged against the blacklist rule.",
